@@ -227,11 +227,60 @@ type world struct {
 	batches map[int]*batchRec
 	cbCalls int
 	counts  map[string]int
+	// consumers that retained the slices they were handed found them changed afterwards
+	retainedFails []string
 }
 
 func newWorld() *world {
 	return &world{views: map[int]kvstore.KVStore{0: mapdb.NewMapDB()}, stacks: map[int]string{0: ""}, batches: map[int]*batchRec{},
 		counts: map[string]int{}}
+}
+
+// retained compares the slices a consumer kept (without copying) with what it saw during the calls: after the iteration
+// returned they must still hold exactly the reported keys / values, and writing into one of them must not change the others.
+// It returns the answer as the retained slices tell it, then scribbles over all of them.
+func (w *world) retained(f []string, during []string, keptK, keptV [][]byte) string {
+	render := func(i int) string {
+		if keptV == nil {
+			return hx.Hex(keptK[i])
+		}
+
+		return hx.Hex(keptK[i]) + ":" + hx.Hex(keptV[i])
+	}
+	var sb strings.Builder
+	differ := ""
+	for i := range keptK {
+		sb.WriteString(" " + render(i))
+		if render(i) != during[i] && differ == "" {
+			differ = fmt.Sprintf("call %d reported %s, the retained slices say %s after the iteration returned", i+1, during[i], render(i))
+		}
+	}
+	if len(keptK) > 1 && differ == "" {
+		scribble(keptK[0])
+		if keptV != nil {
+			scribble(keptV[0])
+		}
+		for i := 1; i < len(keptK); i++ {
+			if render(i) != during[i] {
+				differ = fmt.Sprintf("writing into the slices of call 1 changed those of call %d: %s became %s", i+1, during[i], render(i))
+
+				break
+			}
+		}
+	}
+	if differ != "" {
+		w.retainedFails = append(w.retainedFails, strings.Join(f, " ")+": "+differ)
+	}
+	for i := range keptK {
+		scribble(keptK[i])
+		if keptV != nil {
+			scribble(keptV[i])
+		}
+	}
+	w.counts[fmt.Sprintf("retained-slices-compared:%s:%s", f[0], f[3])]++
+	w.counts[fmt.Sprintf("retained-slices-compared:stack=%s.", w.stacks[atoi(f[1])])]++
+
+	return sb.String()
 }
 
 func scribble(b []byte) {
@@ -420,16 +469,16 @@ func (w *world) exec(f []string) string {
 	case "flush":
 		return errAns(v.Flush())
 	case "iter", "iterc":
+		// the consumer RETAINS every key and value slice it is handed (no copy), and notes what it saw during the call
 		stop, calls := num(4), 0
-		var sb strings.Builder
-		sb.WriteString("kvs")
+		var keptK, keptV [][]byte
+		var during []string
 		nested := "none"
 		p := buf(2)
 		err := v.Iterate(p, func(k kvstore.Key, val kvstore.Value) bool {
 			calls++
-			sb.WriteString(" " + hx.Hex(k) + ":" + hx.Hex(val))
-			scribble(k)
-			scribble(val)
+			keptK, keptV = append(keptK, k), append(keptV, val)
+			during = append(during, hx.Hex(k)+":"+hx.Hex(val))
 			if calls == 1 && f[0] == "iterc" { // the consumer mutates the store: the iteration runs on its snapshot
 				nested = errAns(v.Clear())
 			}
@@ -437,7 +486,7 @@ func (w *world) exec(f []string) string {
 			return calls != stop
 		}, dirArgs(f[3])...)
 		scribble(p)
-		ans := sb.String()
+		ans := "kvs" + w.retained(f, during, keptK, keptV)
 		if err != nil {
 			ans = errAns(err)
 		}
@@ -448,22 +497,23 @@ func (w *world) exec(f []string) string {
 		return ans
 	case "iterk":
 		stop, calls := num(4), 0
-		var sb strings.Builder
-		sb.WriteString("keys")
+		var keptK [][]byte
+		var during []string
 		p := buf(2)
 		err := v.IterateKeys(p, func(k kvstore.Key) bool {
 			calls++
-			sb.WriteString(" " + hx.Hex(k))
-			scribble(k)
+			keptK = append(keptK, k)
+			during = append(during, hx.Hex(k))
 
 			return calls != stop
 		}, dirArgs(f[3])...)
 		scribble(p)
+		ans := "keys" + w.retained(f, during, keptK, nil)
 		if err != nil {
 			return errAns(err)
 		}
 
-		return sb.String()
+		return ans
 	}
 
 	return "bad-op"
@@ -740,6 +790,11 @@ func runCase(r *hx.Run, sub uint64, ops []string) {
 		if p := hx.Safely(func() { want = o.expect(f) }); p != "" {
 			want = "bad-op"
 		}
+		for _, d := range w.retainedFails {
+			r.Fail("retained-keys-differ", d+"; history: "+fmt.Sprint(r.CaseLines()),
+				map[string]string{"op": f[0], "oracle": "retained-keys-differ"})
+		}
+		w.retainedFails = nil
 		if want != ans {
 			r.Fail("ordered-map-contract", fmt.Sprintf("%q answered %q, a single ordered map keyed by realm||key answers %q; history: %v",
 				op, ans, want, r.CaseLines()),
